@@ -46,6 +46,8 @@ IsSlpCtor(c) == c \in {"SlpPubKeyHash", "SlpScriptHashFromHash", "SlpScriptHash3
 
 Verdict(cfg, e) ==
   IF "panic" \in DOMAIN e THEN V("panic", e.op, e.panic)
+  \* constructors are pure in their arguments: the bytes passed and the spare capacity behind them are unchanged
+  ELSE IF "argmod" \in DOMAIN e /\ e.argmod THEN V("argument-memory-modified", e.ctor, e.data)
   ELSE
   CASE e.op = "NewAddr" ->
          LET net == cfg.nets[e.net]  x == CtorSpec(e.env, net, e.ctor, e.data) IN
